@@ -536,11 +536,23 @@ impl Ctx {
     // ---------- finish ----------
 
     /// Writes the evidence file, prints KNOWN-FINDING / VIOLATION lines, returns the exit code.
-    pub fn finish(self, level: &str) -> i32 {
+    pub fn finish(&self, level: &str) -> i32 {
         self.flush_local();
         let wall = self.start.elapsed().as_secs_f64();
         let distinct: usize = self.nontrivial.iter().map(|s| s.lock().unwrap().len()).sum();
-        let inner = self.inner.into_inner().unwrap();
+        let inner = {
+            let mut g = self.inner.lock().unwrap();
+            Inner {
+                classes: std::mem::take(&mut g.classes),
+                samples: std::mem::take(&mut g.samples),
+                sample_labels: BTreeMap::new(),
+                subspaces: std::mem::take(&mut g.subspaces),
+                violations: std::mem::take(&mut g.violations),
+                known_seen: std::mem::take(&mut g.known_seen),
+                assumptions: std::mem::take(&mut g.assumptions),
+                extra: std::mem::take(&mut g.extra),
+            }
+        };
         let evals = self.evals.load(Ordering::Relaxed);
 
         // known findings
@@ -623,6 +635,140 @@ impl Ctx {
             0
         } else {
             1
+        }
+    }
+}
+
+// ---------- hang guard ----------
+//
+// "Never a hang" is part of some properties (C16 decoders, C08 node events). A worker that enters a guarded call
+// publishes the input it is working on; a watchdog thread reports a violation when one guarded call has consumed
+// more than HANG_CPU_SECONDS of *CPU time of that thread* (read from /proc, so machine load does not matter) and
+// ends the process with the usual VIOLATION line and replay file - the stuck thread cannot be stopped otherwise.
+
+pub const HANG_CPU_SECONDS: f64 = 10.0;
+pub type MkCase = fn(kind: &str, bytes: &[u8], aux: &[u8]) -> Value;
+
+struct HangData {
+    kind: &'static str,
+    bytes: Vec<u8>,
+    aux: Vec<u8>,
+    mk: Option<MkCase>,
+}
+
+pub struct HangSlot {
+    tid: u32,
+    epoch: AtomicU64,
+    inside: AtomicBool,
+    alive: AtomicBool,
+    data: Mutex<HangData>,
+}
+
+static HANG_SLOTS: Mutex<Vec<std::sync::Arc<HangSlot>>> = Mutex::new(Vec::new());
+
+struct SlotHandle(std::sync::Arc<HangSlot>);
+impl Drop for SlotHandle {
+    fn drop(&mut self) {
+        self.0.alive.store(false, Ordering::SeqCst);
+    }
+}
+
+thread_local! {
+    static MY_SLOT: SlotHandle = {
+        let tid = std::fs::read_link("/proc/thread-self").ok().and_then(|p| p.file_name().and_then(|f| f.to_str().and_then(|s| s.parse::<u32>().ok()))).unwrap_or(0);
+        let slot = std::sync::Arc::new(HangSlot {
+            tid,
+            epoch: AtomicU64::new(0),
+            inside: AtomicBool::new(false),
+            alive: AtomicBool::new(true),
+            data: Mutex::new(HangData { kind: "", bytes: vec![], aux: vec![], mk: None }),
+        });
+        let mut all = HANG_SLOTS.lock().unwrap();
+        all.retain(|s| s.alive.load(Ordering::SeqCst));
+        all.push(slot.clone());
+        SlotHandle(slot)
+    };
+}
+
+fn json_case(_kind: &str, bytes: &[u8], _aux: &[u8]) -> Value {
+    serde_json::from_slice(bytes).unwrap_or(Value::Null)
+}
+
+/// Runs `f` as one guarded call working on `bytes` (+ `aux`); `mk` turns them into the replay case if it hangs.
+pub fn hang_guard<T>(kind: &'static str, bytes: &[u8], aux: &[u8], mk: MkCase, f: impl FnOnce() -> T) -> T {
+    MY_SLOT.with(|h| {
+        let slot = &h.0;
+        {
+            let mut d = slot.data.lock().unwrap();
+            d.kind = kind;
+            d.bytes.clear();
+            d.bytes.extend_from_slice(bytes);
+            d.aux.clear();
+            d.aux.extend_from_slice(aux);
+            d.mk = Some(mk);
+        }
+        slot.epoch.fetch_add(1, Ordering::SeqCst);
+        slot.inside.store(true, Ordering::SeqCst);
+        let r = f();
+        slot.inside.store(false, Ordering::SeqCst);
+        r
+    })
+}
+
+/// Same, for cases that are described by a JSON value (node-level cases that cost milliseconds anyway).
+pub fn hang_guard_json<T>(kind: &'static str, case: &Value, f: impl FnOnce() -> T) -> T {
+    let text = serde_json::to_vec(case).unwrap_or_default();
+    hang_guard(kind, &text, &[], json_case, f)
+}
+
+fn thread_cpu_seconds(tid: u32) -> Option<f64> {
+    let text = std::fs::read_to_string(format!("/proc/self/task/{}/stat", tid)).ok()?;
+    let rest = &text[text.rfind(')')? + 1..];
+    let f: Vec<&str> = rest.split_whitespace().collect();
+    let utime: f64 = f.get(11)?.parse().ok()?;
+    let stime: f64 = f.get(12)?.parse().ok()?;
+    Some((utime + stime) / 100.0)
+}
+
+impl Ctx {
+    /// Body of the watchdog thread (started by main inside a thread scope); returns when `done` is set.
+    pub fn watchdog(&self, done: &AtomicBool, level: &str) {
+        let mut seen: BTreeMap<u32, (u64, f64)> = BTreeMap::new();
+        while !done.load(Ordering::SeqCst) {
+            std::thread::sleep(std::time::Duration::from_millis(250));
+            let slots: Vec<std::sync::Arc<HangSlot>> = HANG_SLOTS.lock().unwrap().iter().cloned().collect();
+            for s in slots {
+                if !s.alive.load(Ordering::SeqCst) || !s.inside.load(Ordering::SeqCst) || s.tid == 0 {
+                    seen.remove(&s.tid);
+                    continue;
+                }
+                let e = s.epoch.load(Ordering::SeqCst);
+                let cpu = match thread_cpu_seconds(s.tid) {
+                    Some(c) => c,
+                    None => continue,
+                };
+                match seen.get(&s.tid) {
+                    Some((e0, c0)) if *e0 == e => {
+                        if cpu - c0 >= HANG_CPU_SECONDS && s.inside.load(Ordering::SeqCst) && s.epoch.load(Ordering::SeqCst) == e {
+                            let (kind, case) = {
+                                let d = s.data.lock().unwrap();
+                                (d.kind, d.mk.map(|mk| mk(d.kind, &d.bytes, &d.aux)).unwrap_or(Value::Null))
+                            };
+                            let v = Viol::new(
+                                format!("{}-hang", kind),
+                                format!("one {} call has been running for more than {} CPU-seconds without returning (it normally takes micro- to milliseconds): hang", kind, HANG_CPU_SECONDS),
+                                case,
+                            );
+                            self.violation(v);
+                            let code = self.finish(level);
+                            std::process::exit(if code == 0 { 2 } else { code });
+                        }
+                    }
+                    _ => {
+                        seen.insert(s.tid, (e, cpu));
+                    }
+                }
+            }
         }
     }
 }
